@@ -4,22 +4,42 @@ import props.pcgen as pg
 from props.bngen import hx
 
 TRUSTED = [
-    "NOT PROVED: bilinearity of the Tate / Weil / optimal ate pairing as computed by the Miller loops (it needs the theory of divisors on "
-    "elliptic curves, which Mathlib does not have).  It is decided per presented line: the library prints e(P,Q) and e(aP,bQ); the driver checks "
-    "with its own arithmetic (Spec/Curve, Spec/CurveX, tower spec for Fp12) that the operands are the stated multiples, that "
-    "e(aP,bQ) = e(P,Q)^(ab), that e(P,Q) has order r and is non-trivial for non-identity operands, that an identity operand gives 1, and that a "
-    "multi-pairing equals the product of the individual pairings",
-    "proved (Props/C04.lean, abstract algebra): bilinearity on generators extends to the whole cyclic groups; the final exponentiation by "
-    "(q-1)/r maps every non-zero field element into the elements of order dividing r and is multiplicative, hence a multi-pairing computed as "
-    "one final exponentiation of a product of Miller values is the product of the pairings; bilinear + non-degenerate on generators of "
-    "prime-order groups implies non-degenerate everywhere",
-    "the pairing code itself (Miller loop, line functions, final exponentiation chains) is not modelled",
+    "NOT PROVED: bilinearity of the Tate / Weil / optimal ate pairing (that the value of the Miller recurrence is the function with divisor "
+    "s(Q) - ([s]Q) - (s-1)(O), Weil reciprocity): it needs the theory of divisors on elliptic curves, which Mathlib does not have.  It is decided per "
+    "presented line (ppb): the library prints e(P,Q) and e(aP,bQ); the driver checks with its own arithmetic (Spec/Curve, Spec/CurveX, tower spec for "
+    "Fp12) that the operands are the stated multiples, that e(aP,bQ) = e(P,Q)^(ab), that e(P,Q) has order r and is non-trivial for non-identity "
+    "operands, that an identity operand gives 1, and that a multi-pairing equals the product of the individual pairings",
+    "CLASS A (model proved = specification for all inputs AND executed on every presented line): the final exponentiation.  pp_exp_bn, pp_exp_sm9, "
+    "pp_exp_b12, the dispatcher pp_exp_k12 and fp12_conv_cyc are TRANSLATED from the C text on every run (tools/translate_pp.py -> Gen/PpExp.lean); "
+    "Props/C04B.lean proves about the generated definitions: chain(f) = f^(c (p^12-1)/r) with c = 2x(6x^2+3x+1) (BN), 1 (SM9, x >= 0), 3 (BLS12, both "
+    "branches) for every integer x, gcd(c, r) = 1 for every x, the easy part lies in the cyclotomic subgroup (any finite field with p^12 elements); "
+    "fp12_exp_cyc_sps is a hand model (loop for loop) proved to raise to the integer the sparse form denotes.  The driver executes the generated "
+    "chains and the hand model with its own Fp12 arithmetic on fexp / fcyc / expsps lines (arbitrary field elements: 0, 1, -1, subfield elements, "
+    "small orders, cyclotomic, order r, generic; arbitrary sparse forms) and compares with f^(c (p^12-1)/r) by plain square-and-multiply; the "
+    "hypotheses of the theorems are evaluated on the parameters the running library reports",
+    "CLASS A for the loop structure, class C for the line functions: pp_mil_k12, pp_mil_lit_k12, pp_fin_k12_oatep and the maps pp_map_(sim_)oatep / "
+    "tatep / weilp_k12 are hand models (Model/PpMiller.lean) with the line functions as parameters.  Proved over an abstract Miller algebra "
+    "(Props/C04B.lean): the loops as coded (NAF digits, peeled first iteration, sign handling, inner loop over the pairs) compute the canonical "
+    "recurrence f <- f^2 l_{[n]Q,[n]Q}(P), n <- 2n; digit +-1: f <- f l_{[n]Q,+-Q}(P), n <- n +- 1 with the lines at the integer multiples, the running "
+    "points end at [s]Q for the integer s the digits denote, and the multi-pairing loop is the product of the single loops.  The driver runs the "
+    "models over E(Fp12) with the affine chord-and-tangent lines and compares the library's pairing value with the model's value after the final "
+    "exponentiation, value for value (ppm / ppms lines, every variant, multi-pairings with identities, all three curves)",
+    "CLASS C (no model; compared on the presented lines only): the line functions pp_dbl_k12_projc_lazyr, pp_add_k12_projc_lazyr, pp_dbl_lit_k12, "
+    "pp_add_lit_k12 (the comparison after the final exponentiation shows they agree with the affine lines up to factors the final exponentiation "
+    "removes, on the presented lines); the compressed squarings fp12_sqr_pck / fp12_back_cyc_sim inside fp12_exp_cyc_sps are abstracted to a "
+    "squaring / the identity on values (C10 proves the decompression)",
+    "trusted: tools/translate_pp.py (accepted fragment documented in the file; anything else is a translation failure = broken obligation), the "
+    "tower specification as the definition of Fp12, the tower-norm inverse of the driver is checked by a * a^-1 = 1 on every use",
 ]
 ASSUMPTIONS = ["the k = 8, 16, 18, 24 families are not covered (PARTIAL); BLS12-381 runs in the p381 configuration: the specification side is generic in the "
-               "tower, the harness covers embedding degree 12 in the base configuration only"]
-RULE = ("both pairing-friendly curves, variants map / tatep / weilp / oatep: operands identity, generators, equal/opposite multiples, non-normalised "
-        "representations; scalars 0, 1, r-1, r, negative, random; multi-pairings of length 0..5 with identities at arbitrary positions; "
-        "non-trivial = line with non-identity operands and ab != 0 mod r")
+               "tower, the harness covers embedding degree 12 only",
+               "the odd-parameter branch (b[0] == 0) of pp_exp_b12 is proved but not exercised: no configured BLS12 curve has an odd parameter",
+               "pp_exp_b12, even branch: the sparse form must not contain the position -1 (hypothesis hbs of the theorem, evaluated by the driver); "
+               "fp_prime_set_pairf can store it for |x| = 6 mod 8, no shipped parameter is of that form"]
+RULE = ("both pairing-friendly curves (+ BLS12-381), variants map / tatep / weilp / oatep: operands identity, generators, equal/opposite multiples, "
+        "non-normalised representations; scalars 0, 1, r-1, r, negative, random; multi-pairings of length 0..5 with identities at arbitrary positions; "
+        "final exponentiation of arbitrary field elements by class; sparse exponent forms of every shape; non-trivial = line with non-identity "
+        "operands and ab != 0 mod r, or a final-exponentiation / Miller-model line on a non-zero, non-identity operand")
 
 GENERATED = ["pp"]
 EXTRA_THEOREM_MODULES = ["RelicVerif.Props.C04B"]
@@ -151,6 +171,59 @@ def gen_fexp(ctx, ex, cid, st, kv, count):
     return lines
 
 
+def gen_miller(ctx, st, count):
+    """pairing values compared with the Miller-loop model (model column): every variant, generators and random subgroup points, an
+    identity in either slot, multi-pairings with identities inside, equal / opposite operands"""
+    rng = ctx.rng
+    cv1, cv2 = st.cv1, st.cv2
+    P = [cv1.g] + [cv1.mul(cv1.g, rng.bits(256) % st.n) for _ in range(2)]
+    Q = [cv2.g] + [cv2.mul(cv2.g, rng.bits(256) % st.n) for _ in range(2)]
+    out = []
+    for v in ["oatep", "map", "tatep", "weilp"]:
+        out.append("ppm %s %s %s" % (v, pg.p1tok(P[0]), pg.p2tok(Q[0])))
+    out.append("ppm oatep inf %s" % pg.p2tok(Q[0]))
+    out.append("ppm tatep %s inf" % pg.p1tok(P[0]))
+    out.append("ppm oatep %s %s" % (pg.p1tok(P[1]), pg.p2tok(Q[2])))
+    out.append("ppm oatep %s %s" % (pg.p1tok(cv1.mul(P[1], -1)), pg.p2tok(Q[1])))
+    out.append("ppm tatep %s %s" % (pg.p1tok(P[2]), pg.p2tok(Q[1])))
+    out.append("ppms oatep 0")
+    out.append("ppms oatep 1 %s %s" % (pg.p1tok(P[1]), pg.p2tok(Q[1])))
+    out.append("ppms oatep 2 %s %s %s %s" % (pg.p1tok(P[1]), pg.p2tok(Q[1]), pg.p1tok(P[2]), pg.p2tok(Q[0])))
+    out.append("ppms oatep 3 %s %s inf %s %s %s" % (pg.p1tok(P[0]), pg.p2tok(Q[2]), pg.p2tok(Q[0]), pg.p1tok(P[2]), pg.p2tok(Q[1])))
+    out.append("ppms map 2 %s %s %s %s" % (pg.p1tok(P[1]), pg.p2tok(Q[1]), pg.p1tok(cv1.mul(P[1], -1)), pg.p2tok(Q[1])))
+    out.append("ppms tatep 2 %s %s %s %s" % (pg.p1tok(P[0]), pg.p2tok(Q[1]), pg.p1tok(P[1]), pg.p2tok(Q[0])))
+    out.append("ppms weilp 2 %s inf %s %s" % (pg.p1tok(P[0]), pg.p1tok(P[1]), pg.p2tok(Q[2])))
+    for _ in range(count):
+        v = rng.choice(["oatep", "oatep", "oatep", "map", "tatep"])
+        a, b = cv1.mul(cv1.g, rng.bits(256) % st.n), cv2.mul(cv2.g, rng.bits(256) % st.n)
+        out.append("ppm %s %s %s" % (v, pg.p1tok(a), pg.p2tok(b)))
+    return out
+
+
+def gen_lines_fn(ctx, st, count):
+    """the four line functions called directly: running points as small and random multiples, affine and projective representations,
+    the addition with distinct / far-apart points (the exceptional T = +-Q is outside the loops' reach for points of order r)"""
+    import props.c11 as c11
+    rng = ctx.rng
+    cv1, cv2 = st.cv1, st.cv2
+    out = []
+    for i in range(count):
+        k = [1, 2, 3][i] if i < 3 else rng.bits(256) % st.n
+        T2 = cv2.mul(cv2.g, k or 1)
+        Q2 = cv2.mul(cv2.g, (rng.bits(256) % (st.n - 3)) + 2)
+        T1 = cv1.mul(cv1.g, k or 1)
+        P1 = cv1.mul(cv1.g, (rng.bits(256) % (st.n - 3)) + 2)
+        rep2 = c11.ptok(rng, cv2, T2, "P") if i % 2 else pg.p2tok(T2)
+        rep1 = c03.ptok(rng, cv1, T1, "P") if i % 2 else pg.p1tok(T1)
+        out.append("lfn dbl %s %s" % (rep2, pg.p1tok(P1)))
+        out.append("lfn dbll %s %s" % (rep1, pg.p2tok(Q2)))
+        if cv2.mul(Q2, 1) != T2 and cv2.mul(Q2, -1) != T2:
+            out.append("lfn add %s %s %s" % (rep2, pg.p2tok(Q2), pg.p1tok(P1)))
+        if P1 != T1 and cv1.mul(P1, -1) != T1:
+            out.append("lfn addl %s %s %s" % (rep1, pg.p1tok(P1), pg.p2tok(Q2)))
+    return out
+
+
 def streams(ctx, scale=1):
     per = (60 if ctx.tier == "quick" else 1200) * scale
     res = []
@@ -163,6 +236,7 @@ def _stream(ctx, cfg, per):
     ex = pg.exe(ctx, cfg)
     lines = ["cfg"]
     flines = ["cfg"]
+    mlines = ["cfg"]
     for cid in (IDS.get(cfg) or pg.pairing_ids(ex)):
         kv = pg.info(ex, cid)
         if "p" not in kv:
@@ -171,9 +245,13 @@ def _stream(ctx, cfg, per):
         lines.append("pc_param %d" % cid)
         lines += gen_lines(ctx.rng, st, per)
         flines.append("pc_param %d" % cid)
-        flines += gen_fexp(ctx, ex, cid, st, kv, max(8, per // 5) if cfg == "base" else max(6, per // 8))
+        flines += gen_fexp(ctx, ex, cid, st, kv, max(6, per // 8) if cfg == "base" else max(5, per // 10))
+        mlines.append("pc_param %d" % cid)
+        mlines += gen_miller(ctx, st, max(2, per // 20) if cfg == "base" else 1)
+        mlines += gen_lines_fn(ctx, st, 6 if ctx.tier == "quick" else 60)
     return [{"name": "pp-" + cfg, "cfg": cfg, "exe": ex, "lines": lines},
-            {"name": "fexp-" + cfg, "cfg": cfg, "exe": ex, "lines": flines}]
+            {"name": "fexp-" + cfg, "cfg": cfg, "exe": ex, "lines": flines},
+            {"name": "miller-" + cfg, "cfg": cfg, "exe": ex, "lines": mlines}]
 
 
 def search_streams(ctx, mfail):
